@@ -86,3 +86,10 @@ Theorem C03_the_code_is_the_model :
   gen_func_at_location p f (kind_name (e_kind e)) (e_file e) (e_line e) (e_func e) = at_loc (LFunc p (Some f)) e.
 Proof. intros. split; [apply tie_line_at_location | apply tie_func_at_location]. Qed.
 Print Assumptions C03_the_code_is_the_model.
+
+(* TriggerHandler.__actions_for_location as it is in /repo/src NOW: every installed trigger that is at the event's location
+   contributes its actions, in installation order, and nothing else does (the model's actions_for) *)
+Theorem C03_the_code_collects_the_actions_of_every_matching_trigger :
+  forall ts e, gen_actions_for_location ts (kind_name (e_kind e)) (e_file e) (e_line e) (e_func e) = actions_for ts e.
+Proof. exact tie_actions_for_location. Qed.
+Print Assumptions C03_the_code_collects_the_actions_of_every_matching_trigger.
